@@ -362,7 +362,29 @@ func recoverCheck(dir string, im *crashfs.Image, h Hist, exp []rec, withReopen b
 // cutSet returns the cut offsets (number of surviving bytes) of a final segment of the given
 // size: every offset when every==true or the segment is small; otherwise every offset within
 // 12 bytes of any record start/end, plus every 4093rd byte inside large payloads.
-func cutSet(size int64, recs []rec, fin uint32, every bool) []int {
+func cutSet(size int64, recs []rec, fin uint32, every bool, edges bool) []int {
+	if edges && !every {
+		// buffer-edge family: the un-cut log, the empty segment and 2 bytes around every record edge
+		set := map[int]bool{0: true, int(size): true}
+		for _, r := range recs {
+			if r.Seg != fin {
+				continue
+			}
+			for d := int64(-2); d <= 2; d++ {
+				for _, b := range []int64{r.Off, r.End} {
+					if c := b + d; c >= 0 && c <= size {
+						set[int(c)] = true
+					}
+				}
+			}
+		}
+		out := make([]int, 0, len(set))
+		for c := range set {
+			out = append(out, c)
+		}
+		sort.Ints(out)
+		return out
+	}
 	if every || size <= 2048 {
 		out := make([]int, 0, size+1)
 		for c := int64(0); c <= size; c++ {
@@ -432,7 +454,7 @@ func partA(base string, h Hist, every bool, onlyCut int, p *vr.Partial, expired 
 	p.Add("histories_A", 1)
 	p.Max("max_final_segment_bytes", int64(len(full)))
 	p.Max("max_segments", int64(len(im.Files)))
-	for _, c := range cutSet(int64(len(full)), recs, fin, every) {
+	for _, c := range cutSet(int64(len(full)), recs, fin, every, h.Part == "C") {
 		if onlyCut >= 0 && c != onlyCut {
 			continue
 		}
@@ -445,7 +467,10 @@ func partA(base string, h Hist, every bool, onlyCut int, p *vr.Partial, expired 
 		}
 		exp, region, _ := onDisk(img, recs)
 		hc := h
-		hc.Part, hc.Cut = "A", c
+		hc.Cut = c
+		if hc.Part != "C" {
+			hc.Part = "A"
+		}
 		p.Add("recoveries", 1)
 		if region != "boundary" {
 			p.Add("torn_cases", 1)
@@ -551,6 +576,41 @@ func alphabetB(seg int64) []Op {
 	return []Op{{K: "a", T: 0, N: 0}, {K: "a", T: 1, N: 1}, {K: "a", T: 2, N: 7}, {K: "a", T: 3, N: 40}, {K: "a", T: 1, N: fit}, {K: "a", T: 2, N: fit + 1}, {K: "r"}, {K: "s"}}
 }
 
+type bufFamily struct {
+	Buf   int // wal.Config.BufferSize (0 = default 256 KiB)
+	Hists [][]Op
+}
+
+// bufEdgeFamilies: one record of every payload length in [B-8,B+8] (and 2B-3..2B+3) at each
+// position of histories padded with small records, for B = 4096 (Config.BufferSize) and for
+// B = 256 KiB (the default writer/reader size, also what VerifyDir always uses).
+func bufEdgeFamilies(thorough bool) []bufFamily {
+	small := []Op{{K: "a", T: 1, N: 1}, {K: "a", T: 2, N: 7}}
+	build := func(b int, shapes int) [][]Op {
+		var sizes []int
+		for d := -8; d <= 8; d++ {
+			sizes = append(sizes, b+d)
+		}
+		for d := -3; d <= 3; d++ {
+			sizes = append(sizes, 2*b+d)
+		}
+		var out [][]Op
+		for i, n := range sizes {
+			big := Op{K: "a", T: uint8(i % 4), N: n}
+			all := [][]Op{{big}, {small[0], big}, {big, small[1]}, {small[0], big, small[1]}, {big, small[0], small[1]}, {small[0], small[1], big}, {big, big}}
+			out = append(out, all[:shapes]...)
+		}
+		return out
+	}
+	fams := []bufFamily{{Buf: 4096, Hists: build(4096, 7)}}
+	if thorough {
+		fams = append(fams, bufFamily{Buf: 0, Hists: build(256<<10, 4)})
+	} else {
+		fams = append(fams, bufFamily{Buf: 0, Hists: build(256<<10, 2)})
+	}
+	return fams
+}
+
 // sequences enumerates all op sequences of length 1..depth in simplest-first order.
 func sequences(alpha []Op, depth int, fn func(idx int, ops []Op)) int {
 	idx := 0
@@ -650,6 +710,22 @@ func main() {
 				})
 			}
 		}
+		// Part C: payload lengths around the bufio size of the replay reader (Config.BufferSize)
+		// and of VerifyDir (always the 256 KiB default), at every position of 1-3 record histories
+		for _, fam := range bufEdgeFamilies(r.Thorough()) {
+			for _, ops := range fam.Hists {
+				item++
+				if !sh.Owns(item) || r.Expired() {
+					continue
+				}
+				h := Hist{Seg: minSeg, Buf: fam.Buf, Ops: ops, Part: "C", Cut: -1}
+				partA(base, h, false, -1, p, r.Expired, true)
+				p.Add("histories_C", 1)
+				if item%29 == 0 {
+					p.Sample("C: " + h.String())
+				}
+			}
+		}
 		for bi, buf := range bufs {
 			d := depthB
 			if bi > 0 {
@@ -678,12 +754,12 @@ func main() {
 		Level:       "fault_enumeration",
 		Evaluations: total.Counters["recoveries"],
 		Distinct:    total.Counters["torn_cases"],
-		Rule:        "A: every sequence of typed appends (payload 0/1/7 x record types, 3 segment-filling sizes) and forced rotations up to the depth (second segment size for histories with a segment-filling record); newest segment cut at every byte (inside 64 KiB payloads: every byte within 12 of a record edge + every 4093rd; all bytes for the shortest histories in the thorough tier); B: every vfs crash point incl. torn writes (1, len/2, len-1) of append/rotate/sync histories with small bufio sizes. Each image: VerifyDir+Open+Replay == records fully on disk; append 2; Sync; Replay; Close; (reopen; Replay). distinct_nontrivial = recoveries whose newest segment ends inside a record",
+		Rule:        "A: every sequence of typed appends (payload 0/1/7 x record types, 3 segment-filling sizes) and forced rotations up to the depth (second segment size for histories with a segment-filling record); newest segment cut at every byte (inside 64 KiB payloads: every byte within 12 of a record edge + every 4093rd; all bytes for the shortest histories in the thorough tier); B: every vfs crash point incl. torn writes (1, len/2, len-1) of append/rotate/sync histories with small bufio sizes; C: one record of every payload length in [B-8,B+8] and [2B-3,2B+3] around the bufio size B (Config.BufferSize=4096, and the 256 KiB default that VerifyDir always uses) at each position of 1-3 record histories, un-cut plus cuts within 2 bytes of every record edge. Each image: VerifyDir+Open+Replay == records fully on disk; append 2; Sync; Replay; Close; (reopen; Replay). distinct_nontrivial = recoveries whose newest segment ends inside a record",
 		Samples:     total.SamplesAny(),
 		Exhaustive:  !total.TimedOut,
 		Outcomes:    out,
 		Bounds:      map[string]any{"plans_A": planDesc, "depth_B": fmt.Sprintf("%d for the first bufio size, %d for the others", depthB, depthB-1), "every_byte_depth": everyDepth, "segment_sizes": segs, "bufio_sizes_B": bufs, "alphabet_B": len(alphabetB(minSeg))},
-		Extra: map[string]any{"histories_A": total.Counters["histories_A"], "histories_B": total.Counters["histories_B"], "crash_points_B": total.Counters["points_B"],
+		Extra: map[string]any{"histories_C_buffer_edge": total.Counters["histories_C"], "histories_A": total.Counters["histories_A"], "histories_B": total.Counters["histories_B"], "crash_points_B": total.Counters["points_B"],
 			"max_final_segment_bytes": total.Counters["max_final_segment_bytes"], "max_segments": total.Counters["max_segments"], "point_classes": total.Card("point_classes")},
 		Assumptions: []string{"process-crash model: bytes handed to write(2) survive, bufio contents do not", "reopen = wal.VerifyDir followed by wal.Open, as DB.runRecoveryChecks does",
 			"only the newest segment is cut (property text); older segments are intact"},
